@@ -172,7 +172,8 @@ def _codec(ctx, prop):
                 return ("hash-verify:" + tag, "VerifyData ok=%s, spec says %s" % (o["verify"], e["verify"]))
             if e["valid"] != "dc" and o["valid"] != e["valid"]:
                 return ("hash-valid:" + tag, "Hash.Validate gave %s, spec says %s" % (o["valid"], e["valid"]))
-            if e["valid"] == "accept" and o["roundtrip"] is not True:
+            # every hash value that is not completely empty survives the encodings, valid or not
+            if not (i["ht"] == "unknown" and i["len"] == "empty") and o["roundtrip"] is not True:
                 return ("hash-roundtrip:" + tag, "hash does not survive binary/base58/JSON encoding")
             if o["cmpbad"] is not False:
                 return ("hash-compare:" + tag, "CompareHash is wrong")
